@@ -162,7 +162,55 @@ def r3(ctx):
     ctx.floor(rule, n, "C07.R3.parsers")
 
 
+def r4(ctx):
+    rule = "C07.R4"
+    ctx.rule(rule, "sentinel agreement for SIZE(n..MAX): the constant the SIZE parser substitutes for an absent upper bound is the "
+                   "constant Size::reconsider_constraints recognises as `no upper bound`, and the absent lower bound is 0 "
+                   "(a declared `MAX` must not turn into the Default of the type)")
+    P = ctx.program()
+    bs = [b for b in P.bodies.values() if b.crate == "asn1rs_model" and "asn::size::Size" in b.path and b.name == "try_from"
+          and b.def_kind == "AssocFn" and "Peekable" in b.path]
+    rc = [b for b in P.find("asn1rs_model", "::reconsider_constraints") if b.def_kind == "AssocFn"]
+    if len(bs) != 1 or len(rc) != 1:
+        ctx.fail(rule, "anchor-lost:Size::try_from/reconsider_constraints", "matched %d / %d bodies" % (len(bs), len(rc)))
+        return
+    b, rc = bs[0], rc[0]
+    sentinels = sorted({c.boundary for c in F.comparisons(rc, X.Origins(rc, P)) if c.kind == "eq" and c.rhs == "" and c.boundary > 2 ** 31})
+    if len(sentinels) != 1:
+        ctx.fail(rule, "anchor-lost:sentinel", "reconsider_constraints compares the upper bound with %s" % sentinels, "%s:%d" % (rc.file, rc.line))
+        return
+    S = sentinels[0]
+    O = X.Origins(b, P)
+    n = 0
+    for bb, j, st in b.all_statements():
+        if st["k"] == "assign" and st["rv"]["k"] == "agg" and st["rv"].get("adt", "").endswith("size::Size") and st["rv"]["variant"] == "Range":
+            n += 1
+            lo, hi = O.operand(st["rv"]["ops"][0], bb, j), O.operand(st["rv"]["ops"][1], bb, j)
+            detail = {"sentinel": S, "lower": F.rd(lo)[:60] + "…", "upper": F.rd(hi)[-80:]}
+            d = None
+            e = hi
+            while e[0] in ("ref", "deref", "mut"):
+                e = e[1]
+            if e[0] == "call" and X.last_seg(e[1]) == "unwrap_or" and len(e[3]) == 2:
+                dv = e[3][1]
+                consts = [x[1] for x in X.walk(dv) if x[0] == "const"]
+                d = consts[0] if len(consts) == 1 else None
+            elif e[0] == "call" and X.last_seg(e[1]) == "unwrap_or_default":
+                d = 0
+            detail["absent_upper_bound_becomes"] = d
+            if d is None:
+                ctx.ok(rule, "Size::Range#upper-default", dict(detail, note="upper bound is not an Option default; nothing to compare"), nontrivial=False)
+            elif d != S:
+                ctx.fail(rule, "Size::Range#upper-default", "SIZE(n..MAX) stores %s as the upper bound, but `no upper bound` is %d everywhere "
+                                                            "else (reconsider_constraints): the declared MAX becomes a wrong finite bound" % (d, S),
+                         span_loc(st["sp"]), detail)
+            else:
+                ctx.ok(rule, "Size::Range#upper-default", detail)
+    ctx.floor(rule, n, "C07.R4.sites")
+
+
 def run(ctx):
     r1(ctx)
     r2(ctx)
     r3(ctx)
+    r4(ctx)
